@@ -8,6 +8,10 @@ Accs(i) == {[e |-> Tr[i].st.accs[j].e, n |-> Tr[i].st.accs[j].n] : j \in 1..Len(
 Bad == F("DataAfterAccept", {i \in Lines : ~DataAfterAcceptP(Tr[i].st.deliv, Accs(i))})
   \cup F("AcceptOnce", {i \in Lines : ~AcceptOnceP(Tr[i].st.deliv, Accs(i))})
   \cup F("BacklogInOrder", {i \in Lines : ~InOrderP(Tr[i].st.deliv)})
+  \* F43: scenarios "stall-..." wait the message channel time-out out behind a full handler queue; once the application has caught up
+  \* every id the client counted must have reached the handlers (no Ready in these scenarios: ids count from 1)
+  \cup F("CountedAreDelivered", {i \in Lines : Len(Tr[i].tr) >= 6 /\ SubSeq(Tr[i].tr, 1, 6) = "stall-" /\ Tr[i].act.a = "Release" /\ Tr[i].skip = ""
+                                               /\ ~CountedAreDeliveredP(Tr[i].st.deliv, Tr[i].st.nextId)})
   \cup F("NoPanic", {i \in Lines : Len(Tr[i].skip) >= 5 /\ SubSeq(Tr[i].skip, 1, 5) = "PANIC"})
 ASSUME JsonSerialize("props_result.json", [lines |-> Len(Tr), bad |-> Bad])
 PSpec == Init /\ [][UNCHANGED vars]_vars
